@@ -165,6 +165,38 @@ def run(ctx):
         ctx.count("long_outcome", got.split()[0] if got.startswith("ok") else got.split()[1])
         ctx.case(("long", fam, ts, off, si, i, n))
         ctx.count("window", "long(>4096)")
+    # a Timing converted to another family (to_bintime / to_hightime / to_datetime) is a Timing like any other: its start_time is
+    # its own timestamp + time_offset and its timestamps are start_time + k*interval in the new family — whether or not anything
+    # was read from the source before the conversion (caches must not travel across a change of resolution)
+    for case in range(60 if ctx.quick else 2000):
+        fam = rng.choice(["dt", "ht", "bt"])
+        alo, ahi, _, _ = FAMR[fam]
+        mid = (alo + ahi) // 2 if fam != "bt" else 3 * 10**9 * (1 << 64)
+        ts = mid + rng.randint(-10**6, 10**6) * {"dt": 1, "ht": 10**9 + 7, "bt": 12345677}[fam]
+        off = rng.randint(-10**4, 10**4) * {"dt": 1, "ht": 333333333333 + 1, "bt": 987654321 + 2}[fam] + rng.randint(0, 999)
+        si = rng.randint(1, 10**4) * {"dt": 1, "ht": 777777777777 + 5, "bt": 55555555555 + 1}[fam]
+        def mkt():
+            return Timing.create_with_regular_interval(tv.from_model(R[fam], si), tv.from_model(A[fam], ts), tv.from_model(R[fam], off))
+        read, fresh = mkt(), mkt()
+        _ = read.start_time; _ = list(read.get_timestamps(1, 2))
+        for conv in ("to_bintime", "to_hightime", "to_datetime"):
+            outs = []
+            for src in (read, fresh):
+                c = getattr(src, conv)()
+                o = outcome(lambda: (val(tv, c.timestamp), val(tv, c.time_offset), val(tv, c.sample_interval), val(tv, c.start_time),
+                                     [val(tv, x) for x in c.get_timestamps(2, 3)], type(c.timestamp).__module__.split(".")[0]))
+                outs.append(o)
+                if o[0] == "ok":
+                    t0, o0, s0, st0, stamps, _m = o[1]
+                    if st0 != t0 + o0 or stamps != [t0 + o0 + (2 + k) * s0 for k in range(3)]:
+                        ctx.violation(what="converted Timing: start_time / timestamps are not timestamp + offset + k*interval of its own members",
+                                      fam=fam, conversion=conv, read_before_conversion=src is read, timestamp=ts, offset=off, interval=si,
+                                      observed=f"start_time {st0}, timestamps {stamps}", required=f"start_time {t0 + o0}, timestamps {[t0 + o0 + (2 + k) * s0 for k in range(3)]}")
+            if outs[0] != outs[1]:
+                ctx.violation(what="reading a Timing changed what its conversion returns", fam=fam, conversion=conv, timestamp=ts, offset=off, interval=si,
+                              observed=show(outs[0])[:200], required=show(outs[1])[:200])
+            ctx.case(("converted", fam, conv, ts, off, si))
+            ctx.count("converted", f"{fam}->{conv}")
     # REGULAR / NONE without timestamp information
     for fam in ("dt", "ht", "bt"):
         for mode in ("NONE", "REGULAR"):
